@@ -130,10 +130,17 @@ class SourceToSourceFileImportsTransformation(SourceToSourceTransformationBase):
         :rtype:
           `SourceToSourceImportBlockTransformation`
         """
+        def last_lineno(block):
+            # ``endpos`` points just past the text; when the text ends with a
+            # newline that is column 1 of the line after the block.
+            endpos = block.endpos
+            if endpos.colno == 1 and endpos.lineno > block.startpos.lineno:
+                return endpos.lineno - 1
+            return endpos.lineno
         results = [
             b
             for b in self.import_blocks
-            if b.input.startpos.lineno <= lineno <= b.input.endpos.lineno]
+            if b.input.startpos.lineno <= lineno <= last_lineno(b.input)]
         if len(results) == 0:
             raise LineNumberNotFoundError(lineno)
         if len(results) > 1:
